@@ -97,8 +97,46 @@ func hasGuard(gs []Guard, re string) bool {
 		if r.MatchString(g.Text) {
 			return true
 		}
+		// a == b and b == a are one condition: the pattern may have been written for either order
+		if alt := swapEquality(g.Text); alt != "" && r.MatchString(alt) {
+			return true
+		}
 	}
 	return false
+}
+
+// swapEquality rewrites "(A==B)" / "!(A==B)" / "(A!=B)" as the same condition with the operands exchanged; "" when the
+// text is not a single top-level equality.
+func swapEquality(t string) string {
+	neg := ""
+	if strings.HasPrefix(t, "!") {
+		neg, t = "!", t[1:]
+	}
+	if len(t) < 5 || t[0] != '(' || t[len(t)-1] != ')' {
+		return ""
+	}
+	body := t[1 : len(t)-1]
+	depth := 0
+	for i := 0; i+1 < len(body); i++ {
+		switch body[i] {
+		case '(', '[':
+			depth++
+		case ')', ']':
+			depth--
+			if depth < 0 {
+				return "" // the outer parentheses do not enclose the whole text
+			}
+		}
+		if depth == 0 && (body[i] == '=' || body[i] == '!') && body[i+1] == '=' && i > 0 && body[i-1] != '<' && body[i-1] != '>' && body[i-1] != '=' {
+			op := body[i : i+2]
+			a, b := body[:i], body[i+2:]
+			if a == "" || b == "" || strings.HasPrefix(b, "=") {
+				return ""
+			}
+			return neg + "(" + b + op + a + ")"
+		}
+	}
+	return ""
 }
 
 // requireGuards records one obligation per required guard pattern for site.
